@@ -329,7 +329,7 @@ Definition rpp_pre_end (f : list N) : option rp_rd :=
 
 Lemma rpp_scan_cases : forall f,
   match rp_scan f with
-  | inl (c, _) => rp_file (rp_io_ c) = f
+  | inl (c, _) => rp_file (rp_io_ c) = f /\ rp_flen (rp_io_ c) = rp_len f
   | inr c => exists c3, rpp_pre_end f = Some c3 /\ rpp_scan_inv f c3 /\
                         rp_rd_chunk_end (rp_io_ c3) = (rp_io_ c, 0) /\ rp_file (rp_io_ c) = f
   end.
@@ -338,23 +338,24 @@ Proof.
   pose proof (rpp_raw_open_file (rp_io0 f) false) as O. cbv zeta in O.
   destruct (rp_raw_open (rp_io0 f) false) as [s1 rc]. cbn [fst] in O. simpl in O.
   assert (I0 : rpp_scan_inv f (rp_rd0 s1)) by exact O.
-  destruct (negb (rc =? 0) && negb (rc =? JLS_ERROR_TRUNCATED)); [apply I0 |].
+  destruct (negb (rc =? 0) && negb (rc =? JLS_ERROR_TRUNCATED)); [destruct I0 as (A & B & _); split; assumption |].
   pose proof (rpp_scan_initial_frame (rp_rd0 s1)) as F1.
   destruct (rp_scan_initial (rp_rd0 s1)) as [c1 rc1]. cbn [fst] in F1.
   pose proof (rpp_scan_inv_frame _ _ _ I0 F1) as I1.
-  destruct (negb (rc1 =? 0)); [apply I1 |].
+  destruct (negb (rc1 =? 0)); [destruct I1 as (A & B & _); split; assumption |].
   pose proof (rpp_scan_sources_frame c1) as F2.
   destruct (rp_scan_sources c1) as [c2 rc2]. cbn [fst] in F2.
   pose proof (rpp_scan_inv_frame _ _ _ I1 F2) as I2.
-  destruct (negb (rc2 =? 0)); [apply I2 |].
+  destruct (negb (rc2 =? 0)); [destruct I2 as (A & B & _); split; assumption |].
   pose proof (rpp_scan_signals_frame c2) as F3.
   destruct (rp_scan_signals c2) as [c3 rc3]. cbn [fst] in F3.
   pose proof (rpp_scan_inv_frame _ _ _ I2 F3) as I3.
-  destruct (negb (rc3 =? 0)); [apply I3 |].
+  destruct (negb (rc3 =? 0)); [destruct I3 as (A & B & _); split; assumption |].
   pose proof (rpp_rd_chunk_end_frame (rp_io_ c3)) as F4.
   destruct (rp_rd_chunk_end (rp_io_ c3)) as [s4 rc4] eqn:E4. cbn [fst] in F4.
   assert (I4 : rp_file s4 = f) by (destruct F4 as (A & _); destruct I3 as (B & _); congruence).
-  destruct (negb (rc4 =? 0)) eqn:N4; [exact I4 |].
+  assert (J4 : rp_flen s4 = rp_len f) by (destruct F4 as (_ & A & _); destruct I3 as (_ & B & _); congruence).
+  destruct (negb (rc4 =? 0)) eqn:N4; [split; [exact I4 | exact J4] |].
   exists c3. split; [reflexivity |]. split; [exact I3 |]. split; [| exact I4].
   rewrite E4. simpl. f_equal. apply negb_false_iff in N4. now apply N.eqb_eq in N4.
 Qed.
@@ -400,7 +401,7 @@ Theorem rpp_open_not_did : forall f, rp_did (rp_open summ1 summN f) = false ->
 Proof.
   intros f. unfold rp_open. pose proof (rpp_scan_cases f) as S.
   destruct (rp_scan f) as [[c rc] | c].
-  - intros _. split; [reflexivity | exact S].
+  - intros _. split; [reflexivity | apply S].
   - destruct S as (c3 & _ & _ & _ & Hf).
     destruct (fm_tag (wm_ck_hdr (rp_cur (rp_io_ c))) =? JLS_TAG_END).
     + intros _. pose proof (rpp_finish_quiet c) as (A & B & _). split; [exact A | now rewrite B].
